@@ -209,6 +209,9 @@ fn find_priority<T: ItemLike>(node: &Option<Box<TreapNode<T>>>, id: u32) -> Opti
 /// One thread's private history.  Every node-creating step creates exactly one node.
 /// Thread `tid`'s history with the item type chosen by the thread index.
 fn history(tid: usize, hseed: u64, ops: usize, long: usize, bulk: usize, churn: usize, stagger: usize, stamped: bool, baton: Option<&Baton>) -> ThreadOut {
+    if std::thread::current().name() != Some("main") {
+        arm_teardown(tid);
+    }
     if tid % 2 == 1 {
         history_t::<BigItem>(tid, hseed, ops, long, bulk, churn, stagger, stamped, baton)
     } else {
@@ -439,7 +442,56 @@ fn list(s: &str) -> Vec<usize> {
     s.split(',').filter(|x| !x.is_empty()).map(|x| x.parse().expect("bad list")).collect()
 }
 
+/// `--teardown K`: every spawned thread owns a thread-local whose destructor creates K more nodes
+/// while the thread is being torn down (a flush-on-exit buffer, a sentinel inserted on exit).  It
+/// is initialised before the thread's first node, so it is destroyed after any thread-local of the
+/// library.  The priorities drawn there are appended to the thread's stream.
+static TEARDOWN: AtomicUsize = AtomicUsize::new(0);
+static LATE_OUT: std::sync::Mutex<Vec<(usize, Vec<u32>)>> = std::sync::Mutex::new(Vec::new());
+/// baton mode: the teardown draws obey the prescribed global creation order as well
+static GLOBAL_BATON: std::sync::OnceLock<Arc<Baton>> = std::sync::OnceLock::new();
+
+struct Late {
+    tid: usize,
+    k: usize,
+}
+impl Drop for Late {
+    fn drop(&mut self) {
+        let mut ps = Vec::with_capacity(self.k);
+        for j in 0..self.k {
+            if let Some(b) = GLOBAL_BATON.get() {
+                b.acquire(self.tid);
+            }
+            ps.push(TreapNode::new(Item::make(900_000 + j as u32)).priority);
+            if let Some(b) = GLOBAL_BATON.get() {
+                b.release();
+            }
+        }
+        if let Ok(mut out) = LATE_OUT.lock() {
+            out.push((self.tid, ps));
+        }
+    }
+}
+thread_local! {
+    static LATE: std::cell::RefCell<Option<Late>> = const { std::cell::RefCell::new(None) };
+}
+fn arm_teardown(tid: usize) {
+    let k = TEARDOWN.load(Ordering::Relaxed);
+    if k > 0 {
+        LATE.with(|l| *l.borrow_mut() = Some(Late { tid, k }));
+    }
+}
+
 fn print_out(tid: usize, o: &ThreadOut, stamped: bool) {
+    let mut prios: Vec<u32> = o.prios.clone();
+    if let Ok(late) = LATE_OUT.lock() {
+        for (t, ps) in late.iter() {
+            if *t == tid {
+                prios.extend_from_slice(ps);
+            }
+        }
+    }
+    let o = &ThreadOut { prios, stamps: o.stamps.clone(), func: o.func.clone(), prints: o.prints.clone() };
     println!("T{} PRIO {}", tid, o.prios.iter().map(|p| p.to_string()).collect::<Vec<_>>().join(" "));
     println!("T{} FUNC {}", tid, o.func);
     println!("T{} PRINT {}", tid, o.prints.iter().map(|p| format!("{:016x}", p)).collect::<Vec<_>>().join(" "));
@@ -461,6 +513,7 @@ fn main() {
     let stamped = args.iter().any(|a| a == "--stamped");
     let main_participates = args.iter().any(|a| a == "--main-participates");
     let barrier = args.iter().any(|a| a == "--barrier");
+    TEARDOWN.store(arg(&args, "--teardown").and_then(|s| s.parse().ok()).unwrap_or(0), Ordering::Relaxed);
 
     match mode.as_str() {
         "single" => {
@@ -516,6 +569,7 @@ fn main() {
             // concurrent threads, but node creations serialised in the prescribed global order
             let order = list(&arg(&args, "--order").expect("--order"));
             let baton = Arc::new(Baton { order, turn: AtomicUsize::new(0) });
+            let _ = GLOBAL_BATON.set(baton.clone());
             let first = if main_participates { 1 } else { 0 };
             let hs: Vec<_> = (first..threads)
                 .map(|tid| {
